@@ -374,7 +374,7 @@ def tagH : Handler := fun inp impl => do
   let lastR := lastRedirectField fs
   let others := fs.filter (fun o => (passedOn o).isSome && !hasPrefix o kRedirect)
   -- where the (last well-formed) redirect field stands among the options that are passed on
-  let posTag : String := match lastR with
+  let posTag : String := if fs.contains (lit "redirect") then "bare-redirect-option" else match lastR with
     | none => if fs.any (fun o => hasPrefix o kRedirect) then "malformed-redirect" else "no-redirect"
     | some _ =>
       let isR (o : Str) : Bool := hasPrefix o kRedirect && (passedOn o).isSome
